@@ -812,7 +812,7 @@ int _vnacal_new_solve_internal(vnacal_new_t *vnp)
     for (int findex = 0; findex < frequencies; ++findex) {
 	const int x_length = vnp->vn_systems * (vlp_in->vl_t_terms - 1);
 	double complex x_vector[x_length];
-	double complex e_vector[error_terms_out];
+	double complex e_vector[MAX(error_terms_in, error_terms_out)];
 	int eterm_index = 0;
 
 	/*
